@@ -119,7 +119,10 @@ def add_ecs(cube, ecs, shape, voff=0.0, ishift=None):
         x = np.arange(n, dtype=float) - (ishift[axes[0]] if ishift and kind in ("quantity", "time") else 0)
         v = x ** 2 + 3 * x + 10 * k + voff
         nm = names_of(k, ec)
-        if kind == "quantity":
+        if kind == "quantity" and ec.get("dup"):
+            # the table before this one, again, in another unit
+            cube.extra_coords.add(nm[0], axes[0], ((v - 10) * 100) * u.cm, physical_types=f"custom:q{k}")
+        elif kind == "quantity":
             cube.extra_coords.add(nm[0], axes[0], v * u.m, physical_types=f"custom:q{k}")
         elif kind == "time":
             # (Time tables in the usual scales, by table position: instants matter, not clock readings)
